@@ -45,3 +45,8 @@ def run(ctx):
 MUTANTS = [{'name': 'degree-mul-unchecked-again', 'file': 'crates/ordinals/src/sat.rs', 'old': '    let cycle_start_epoch = cycle_number\n      .checked_mul(CYCLE_EPOCHS)\n      .ok_or_else(|| ErrorKind::IntegerRange.error(degree))?;', 'new': '    let cycle_start_epoch = cycle_number * CYCLE_EPOCHS;', 'expect': ('R31.1', 'from_degree', 'arith:Mul(')},
            {'name': 'nan-guard-dropped', 'file': 'crates/ordinals/src/sat.rs', 'old': 'if !percentile.is_finite() || percentile < 0.0 {', 'new': 'if percentile < 0.0 {', 'expect': ('R31.1', 'from_percentile', 'fcast:')},
            {'name': 'inscription-id-length-guard-dropped', 'file': 'src/inscriptions/inscription_id.rs', 'old': '    if s.len() < MIN_LEN {\n      return Err(ParseError::Length(s.len()));\n    }\n', 'new': '', 'expect': ('R31.1', 'InscriptionId as std::str::FromStr', 'index-call:index(s,RangeTo')}]
+
+
+# behaviour-preserving edits (thorough tier): the rules must stay silent on every one of them
+NEUTRAL = [{'name': 'from_percentile: finiteness test spelled out', 'file': 'crates/ordinals/src/sat.rs', 'old': 'if !percentile.is_finite() || percentile < 0.0 {', 'new': 'if percentile.is_nan() || percentile.is_infinite() || percentile < 0.0 {'},
+           {'name': 'InscriptionId::from_str: length guard flipped', 'file': 'src/inscriptions/inscription_id.rs', 'old': '    if s.len() < MIN_LEN {', 'new': '    if MIN_LEN > s.len() {'}]
